@@ -246,6 +246,17 @@ pub fn run(ctx: &mut WorkerCtx, job: &Value) -> JobOutput {
     let out_model = root.join("modelo_salida.json");
     let out_ind = root.join("indicadores_salida.json");
     let _ = std::fs::remove_file(&out_model);
+    let _ = std::fs::remove_file(&out_ind);
+    if has(job, "stale_output") {
+        // the output paths already hold an older, longer export (the user re-exports in place)
+        let mut stale = String::from("{\"meta\": {\"name\": \"exportación anterior\"}, \"relleno\": [");
+        for i in 0..60_000 {
+            stale.push_str(&format!("{}, ", i));
+        }
+        stale.push_str("0]}\n");
+        let _ = std::fs::write(&out_model, &stale);
+        let _ = std::fs::write(&out_ind, &stale);
+    }
     if tool == "hulc2model" {
         if use_extra {
             cmd.arg("--use-extra");
